@@ -429,6 +429,52 @@ fn reinit_case(w: &mut World) -> Result<(), String> {
                 Err(p) => w.violate("C17|panic|join_subgroup_with_reinit_welcome", p),
             }
         }
+        // an ordinary group with the announced id, extensions and the right identities, made by
+        // somebody who never held the old group's state (no resumption PSK in its Welcome)
+        if variant == "equal" && w.rng.chance(1, 4) {
+            let prov = w.parties[ci].prov;
+            if let Some(cs2) = AnyCrypto::new(prov).suite(new_suite) {
+                if let Ok((sk, pk)) = cs2.signature_key_generate() {
+                    let stores = Stores::new(crate::store::Backend::Mem, 3);
+                    let saved = w.cfg.suite;
+                    w.cfg.suite = new_suite;
+                    let rules = w.cfg.rules();
+                    w.cfg.suite = saved;
+                    let (imp, _) = make_client(&w.parties[ci].name.clone(), prov, 994, new_suite, sk, pk, &stores, &VIdent::default(), rules, None);
+                    let (gid, ext) = (new_gid.clone(), new_ext.clone());
+                    let all_kps: Vec<MlsMessage> = kps.iter().map(|k| k.1.clone()).collect();
+                    let built = guarded(move || {
+                        let mut ig = imp.create_group_with_id(gid, ext, Default::default(), None)?;
+                        let mut b = ig.commit_builder();
+                        for k in all_kps {
+                            b = b.add_member(k)?;
+                        }
+                        let out = b.build()?;
+                        ig.apply_pending_commit()?;
+                        Ok::<_, mls_rs::error::MlsError>((ig.export_tree().into_owned(), out.welcome_messages))
+                    });
+                    if let Ok(Ok((itree, iw))) = built {
+                        w.out.cov.bump("negative:impostor_group_with_announced_id");
+                        // the Welcome that names this member's key package
+                        let mine = iw
+                            .iter()
+                            .find(|m| my_ref.as_ref().map(|r| m.welcome_key_package_references().iter().any(|x| *x == r)).unwrap_or(false))
+                            .cloned();
+                        let Some(mine) = mine else { continue };
+                        let r = guarded(move || rc.join(&mine, Some(itree), None).map(|_| ()));
+                        match r {
+                            Ok(Ok(())) => w.violate(
+                                "C17|joined_successor_made_without_the_old_group_state",
+                                format!("party {i} joined, through its re-init client, an ordinary group that an outsider created under the announced group id (its Welcome carries no resumption PSK)"),
+                            ),
+                            Ok(Err(_)) => {}
+                            Err(p) => w.violate("C17|panic|join_impostor_group", p),
+                        }
+                        continue;
+                    }
+                }
+            }
+        }
         // and a branch of the frozen old group under the announced group id is not the successor
         if new_suite == old_suite && new_ext == old_ext && w.rng.chance(1, 3) {
             if let (Some(kp), Some((_, ogc))) = (my_kp.clone(), w.parties[ci].former.last()) {
